@@ -318,6 +318,69 @@ CASES = [
                 x = None
             return x
      ''', 'f', ['x = None'], []),
+    # ---- N50 constant-trip collection loops / lists read by constant index
+    ('N50 collection loop written out', '''
+        class K:
+            def f(self):
+                out = []
+                for _ in range(3):
+                    self.poke()
+                    out.append(self.peek())
+                a, b = out[-2:]
+                return a == b
+     ''', 'f', ['self.poke()'], ['for _', 'out = []', 'out.append']),
+    ('N50 not when the list escapes', '''
+        class K:
+            def f(self):
+                out = []
+                for _ in range(3):
+                    out.append(self.peek())
+                self.keep(out)
+                return out[0]
+     ''', 'f', ['out.append', 'self.keep(out)'], ['out__']),
+    ('N50 not when the loop may stop early', '''
+        class K:
+            def f(self):
+                out = []
+                for _ in range(3):
+                    out.append(self.peek())
+                    if self.done():
+                        break
+                return out[0]
+     ''', 'f', ['for _ in range(3)', 'break'], ['out__']),
+    ('N50 not when the loop variable is read', '''
+        class K:
+            def f(self):
+                out = []
+                for i in range(3):
+                    out.append(self.peek(i))
+                return out[0]
+     ''', 'f', ['for i in range(3)'], ['out__']),
+    ('N50 not when an index may be out of range', '''
+        class K:
+            def f(self):
+                out = []
+                out.append(self.peek())
+                out.append(self.peek())
+                return out[2]
+     ''', 'f', ['out.append', 'out[2]'], ['out__']),
+    ('N50 not when an append is conditional', '''
+        class K:
+            def f(self, c):
+                out = []
+                out.append(self.peek())
+                if c:
+                    out.append(self.peek())
+                return out[-1]
+     ''', 'f', ['out.append', 'out[-1]'], ['out__']),
+    ('N50 not when the trip count is not a constant', '''
+        class K:
+            def f(self, n):
+                out = []
+                for _ in range(n):
+                    out.append(self.peek())
+                return out[0]
+     ''', 'f', ['for _ in range(n)'], ['out__']),
 ]
 
 
